@@ -29,7 +29,7 @@ def neg(e):
 class Walker:
     """classify(atoms:set, operand) -> role string (stable, line-free)."""
 
-    def __init__(self, facts, body, classify, opaque_name=None, max_paths=20000, inline=None):
+    def __init__(self, facts, body, classify, opaque_name=None, max_paths=20000, inline=None, unroll=1):
         self.f = facts
         self.b = body
         self.sl = Slicer(facts, body)
@@ -39,6 +39,7 @@ class Walker:
                                            if callee_def(t).count("::") >= 2 else "call:" + callee_def(t))
         self.paths = []
         self.truncated = False
+        self.unroll = unroll   # a block may appear this many times on a path (2 = one loop iteration, then exit)
 
     # --- symbolic values
     def role(self, op):
@@ -92,7 +93,7 @@ class Walker:
         terminator).  Paths end at an outcome, at a return (outcome ('return', env)), or when a block repeats
         (outcome 'loop')."""
         self.paths = []
-        self._dfs(start, {}, [], [], stop, set())
+        self._dfs(start, {}, [], [], stop, {})
         return self.paths
 
     def _dfs(self, bb, env, lits, blocks, stop, onpath):
@@ -100,7 +101,8 @@ class Walker:
             self.truncated = True
             return
         b = self.b
-        if bb in onpath:
+        visit = onpath.get(bb, 0) + 1
+        if visit > self.unroll:
             self.paths.append({"lits": lits, "outcome": ("loop", bb), "blocks": blocks + [bb], "env": env})
             return
         env = dict(env)
@@ -131,7 +133,9 @@ class Walker:
         if t is None:
             return
         k = t["k"]
-        onpath = onpath | {bb}
+        onpath = dict(onpath)
+        onpath[bb] = visit
+        sfx = "" if visit == 1 else "#%d" % visit
         if k == "return":
             self.paths.append({"lits": lits, "outcome": ("return",), "blocks": blocks, "env": env})
         elif k == "switch":
@@ -139,7 +143,7 @@ class Walker:
             if t.get("ty") == "bool":
                 if v is None:
                     atoms = self.sl.of_operand(t["op"])
-                    v = ("opaque", "bool:" + self.classify(atoms, t["op"]))
+                    v = ("opaque", "bool:" + self.classify(atoms, t["op"]) + sfx)
                 fals = [tg for val, tg in t["targets"] if val == 0]
                 if fals:
                     self._dfs(fals[0], env, lits + [neg(v)], blocks, stop, onpath)
@@ -150,7 +154,7 @@ class Walker:
                     self._dfs(t["otherwise"], env, lits + [neg(v)], blocks, stop, onpath)
             else:
                 atoms = self.sl.of_operand(t["op"])
-                role = self.classify(atoms, t["op"])
+                role = self.classify(atoms, t["op"]) + sfx
                 vals = [val for val, _ in t["targets"]]
                 for val, tg in t["targets"]:
                     self._dfs(tg, env, lits + [("disc", role, val)], blocks, stop, onpath)
@@ -200,6 +204,7 @@ def atoms_of(e, acc):
             acc["disc"][e[1]].add(e[2])
         else:
             acc["disc"][e[1]].update(e[2])
+            acc.setdefault("has_other", set()).add(e[1])
     elif e[0] == "not":
         atoms_of(e[1], acc)
     elif e[0] in ("and", "or"):
@@ -259,7 +264,7 @@ def table(paths, outcome_value, fix_disc=None, max_rows=200000):
         if fix_disc and d in fix_disc:
             disc_vals[d] = [fix_disc[d]]
         else:
-            disc_vals[d] = sorted(acc["disc"][d]) + ["other"]
+            disc_vals[d] = sorted(acc["disc"][d]) + (["other"] if d in acc.get("has_other", ()) else [])
     n = (3 ** len(pairs)) * (2 ** len(opq))
     for d in discs:
         n *= len(disc_vals[d])
